@@ -399,7 +399,7 @@ Proof.
       * apply dedup_w_nodup.
       * intros x Hx. destruct (Hws x Hx) as [v [Hv ->]]. simpl. split; [auto|].
         exists v. apply Hdiff in Hv. tauto.
-      * intros v H1 H2. unfold ws. apply dedup_w_fst. rewrite map_map. simpl.
+      * intros v H1 H2. unfold ws. apply (proj1 (dedup_w_fst _ _)). rewrite map_map. simpl.
         apply in_map_iff. exists v. split; [reflexivity|]. apply Hdiff. auto.
 Qed.
 
@@ -458,7 +458,7 @@ Proof.
           unfold t1 in Hin.
           inversion Hc as [Hd E1 E2|Hd E1 E2|ks Hallk Hnd Hks Hcov E1 E2].
           -- (* no view disappeared *)
-             rewrite <- E1 in Hin. simpl in Hin. rewrite Ht0 in Hin.
+             rewrite <- E1 in Hin. change (In p (t_plcs t)) in Hin.
              destruct (Hp0 Hin) as [v [Hv Hpv]]. apply In_plcs_of. exists v. split; [|exact Hpv].
              destruct (view_mem v V) eqn:Em; [apply view_mem_In; exact Em|].
              exfalso. assert (In v (filter (fun v => negb (view_mem v V)) (s_prev s))).
@@ -525,7 +525,7 @@ Proof.
         assert (HIv' : In v' (s_prev s ++ V)) by (apply in_or_app; now right).
         assert (Hin1 : In p (t_plcs t1)).
         { unfold t1. inversion Hc as [Hd E1 E2|Hd E1 E2|ks Hallk Hnd Hks Hcov E1 E2].
-          - rewrite <- E1. simpl. rewrite Ht0. exact Hin0.
+          - exact Hin0.
           - (* delete-all: the canvas disguise changed, so the row differs: contradiction *)
             exfalso. rewrite <- E2 in Hdv. unfold dsum in Hdv. simpl in Hdv.
             destruct (is_kitty (v_kind v')) eqn:Ek.
@@ -534,7 +534,7 @@ Proof.
             + rewrite (Hnk (v_wid v)) in Hdv by (rewrite <- (Wk v HIv); congruence).
               rewrite (Hnk (v_wid v')) in Hdv by (rewrite <- (Wk v' HIv'); exact Ek).
               pose proof (bump_ne (s_cdis s)). lia.
-          - rewrite <- E1. destruct (delz_exec (map (fun x => kind_z (snd x)) ks) t0) as [Ez _].
+          - destruct (delz_exec (map (fun x => kind_z (snd x)) ks) t0) as [Ez _].
             apply Ez. rewrite Ht0. split; [exact Hin0|].
             intro Hz. apply in_map_iff in Hz. destruct Hz as [x [Hx1 Hx2]].
             destruct (Hks x Hx2) as [Hkx [v2 [Hv2 [Hnv2 ->]]]]. simpl in Hx1, Hkx.
@@ -561,11 +561,99 @@ Proof.
           exfalso. rewrite Ep in Hrow'. subst y. congruence.
         * apply Wd; [exact Hp| |congruence]. apply In_plcs_of. exists v2. auto. }
   split; [|split].
-  - split; [exact Hnk1|]. simpl. split.
+  - split; [exact Hnk1|]. cbn [w_sb w_scr w_term]. split.
     + exists base. intro y. rewrite Hprev1. reflexivity.
-    + rewrite Hprev1. rewrite Hterm. exact Hmain.
+    + rewrite Hprev1. rewrite <- Hterm in Hmain. exact Hmain.
   - exact Hprev1.
-  - rewrite Hterm. exact Hmain.
+  - rewrite <- Hterm in Hmain. exact Hmain.
+Qed.
+
+(** clear(): everything is deleted and the whole screen will be written again *)
+Lemma step_clear_good : forall w, good w -> good (step w OClear) /\ t_plcs (w_term (step w OClear)) = [].
+Proof.
+  intros [s sb t] [Hnk _]. unfold ScreenUrwid.step, clear_stream, clear_images_all. simpl.
+  split; [split|]; try reflexivity. exact Hnk.
+Qed.
+
+(** a sequence of operations each of whose redraws is well-formed in the state it meets *)
+Fixpoint ops_wf (w : world) (ops : list sop) : Prop :=
+  match ops with
+  | [] => True
+  | o :: rest =>
+    match o with ORedraw V _ => wf_redraw (s_prev (w_scr w)) V | OClear => True end
+    /\ ops_wf (step w o) rest
+  end.
+
+Lemma run_good : forall ops w, good w -> ops_wf w ops -> good (run ops w).
+Proof.
+  induction ops as [|o ops IH]; intros w Hg Hwf; [exact Hg|].
+  destruct Hwf as [Ho Hrest]. unfold ScreenUrwid.run. simpl. apply IH; [|exact Hrest].
+  destruct o as [V base|]; [apply step_redraw_good; assumption|apply step_clear_good; assumption].
+Qed.
+
+Lemma ops_wf_app : forall a b w, ops_wf w (a ++ b) -> ops_wf w a /\ ops_wf (run a w) b.
+Proof.
+  induction a as [|o a IH]; intros b w Hwf; [split; [exact I|exact Hwf]|].
+  destruct Hwf as [Ho Hrest]. destruct (IH b (step w o) Hrest) as [Ha Hb].
+  split; [split; assumption|exact Hb].
+Qed.
+
+Lemma run_app : forall a b w, run (a ++ b) w = run b (run a w).
+Proof. intros. unfold ScreenUrwid.run. apply fold_left_app. Qed.
+
+Lemma no_ghosts_lemma : forall ops V base,
+  ops_wf world_init (ops ++ [ORedraw V base]) ->
+  forall p, In p (t_plcs (w_term (run (ops ++ [ORedraw V base]) world_init))) <-> In p (plcs_of V).
+Proof.
+  intros ops V base Hwf. apply ops_wf_app in Hwf. destruct Hwf as [Ha [Hb _]].
+  rewrite run_app. pose proof (run_good ops world_init good_init Ha) as Hg.
+  destruct (step_redraw_good (run ops world_init) V base Hg Hb) as [_ [_ Hs]]. exact Hs.
+Qed.
+
+Lemma cleared_after_clear_lemma : forall ops,
+  ops_wf world_init ops -> t_plcs (w_term (run (ops ++ [OClear]) world_init)) = [].
+Proof.
+  intros ops Hwf. rewrite run_app. pose proof (run_good ops world_init good_init Hwf) as Hg.
+  destruct (step_clear_good (run ops world_init) Hg) as [_ E]. exact E.
 Qed.
 
 End Ghost.
+
+(** *** start / stop / clear delete every image, whatever is on the terminal *)
+
+Definition no_place (x : stok) : bool :=
+  match x with KPlace _ _ _ _ | KIterm _ _ _ => false | _ => true end.
+
+Lemma pexec_no_place_empty : forall konsole ts t,
+  forallb no_place ts = true -> t_plcs t = [] -> t_plcs (pexec konsole t ts) = [].
+Proof.
+  induction ts as [|x ts IH]; intros t Hn He; [exact He|]. simpl in Hn. apply andb_true_iff in Hn.
+  destruct Hn as [Hx Hn]. simpl. apply IH; [exact Hn|].
+  destruct x; simpl in *; try discriminate; try exact He.
+  rewrite He. destruct d; reflexivity.
+Qed.
+
+Lemma pexec_delall : forall konsole t, t_plcs (pexec konsole t [KDel DelAll]) = [].
+Proof. reflexivity. Qed.
+
+(** [inner]: what urwid's own _start / _stop write (no image) *)
+Lemma cleared_on_start_stop_clear_lemma : forall konsole inner s t,
+  forallb no_place inner = true ->
+  t_plcs (pexec konsole t (fst (start_stream true inner s))) = []
+  /\ t_plcs (pexec konsole t (fst (stop_stream true inner s))) = []
+  /\ t_plcs (pexec konsole t (fst (clear_stream true s))) = []
+  /\ s_cdis (snd (start_stream true inner s)) <> s_cdis s
+  /\ s_cdis (snd (stop_stream true inner s)) <> s_cdis s
+  /\ s_cdis (snd (clear_stream true s)) <> s_cdis s.
+Proof.
+  intros konsole inner s t Hn. unfold start_stream, stop_stream, clear_stream, clear_images_all. simpl.
+  repeat split; try apply bump_ne.
+  - rewrite pexec_app. reflexivity.
+  - apply pexec_no_place_empty; [exact Hn|reflexivity].
+Qed.
+
+(** without kitty support nothing is written (the terminal shows no such image) *)
+Lemma unsupported_silent : forall inner s,
+  fst (start_stream false inner s) = inner /\ fst (stop_stream false inner s) = inner
+  /\ fst (clear_stream false s) = [].
+Proof. intros. unfold start_stream, stop_stream, clear_stream, clear_images_all. simpl. rewrite app_nil_r. auto. Qed.
